@@ -2,6 +2,7 @@ package main
 
 import (
 	"fmt"
+	"go/token"
 	"go/types"
 	"strings"
 
@@ -122,6 +123,7 @@ func (e *Env) invoke(st *State, recv Val, m *types.Func, args []Val, rt types.Ty
 			return e.dispatch(st, fn, append([]Val{inner}, args...), nil, rt, depth, c)
 		}
 	}
+	e.callSiteChecks(st, m.Name(), ifaceParamNames(e, recv.Typ, m), append([]Val{recv}, args...), c)
 	// interface contract
 	if ct := e.Cx.ifaceContract(recv.Typ, m.Name()); ct != nil {
 		return e.applyContract(st, ct, append([]Val{recv}, args...), rt, c)
@@ -198,6 +200,7 @@ func (e *Env) recvFromIface(st *State, recv Val, impl *ssa.Function) Val {
 
 func (e *Env) dispatch(st *State, fn *ssa.Function, args []Val, binds []Val, rt types.Type, depth int, c *ssa.CallCommon) []Out {
 	name := fn.String()
+	e.callSiteChecks(st, fn.Name(), paramNamesOf(fn), args, c)
 	// synthetic wrappers: bound method closures / thunks
 	if fn.Synthetic != "" && fn.Blocks != nil && (strings.HasPrefix(fn.Synthetic, "bound method") || strings.HasPrefix(fn.Synthetic, "wrapper") || strings.HasPrefix(fn.Synthetic, "thunk")) {
 		return e.inline(st, fn, args, binds, depth)
@@ -225,6 +228,83 @@ func (e *Env) dispatch(st *State, fn *ssa.Function, args []Val, binds []Val, rt 
 		return e.pureCall(st, name, args, rt)
 	}
 	return e.havocCall(st, name, args, rt)
+}
+
+func paramNamesOf(fn *ssa.Function) []string {
+	var out []string
+	for _, p := range fn.Params {
+		out = append(out, p.Name())
+	}
+	return out
+}
+
+func ifaceParamNames(e *Env, t types.Type, m *types.Func) []string {
+	if ct := e.Cx.ifaceContract(t, m.Name()); ct != nil {
+		return ct.Params
+	}
+	if t != nil {
+		if ct := e.Cx.extern["("+t.String()+")."+m.Name()]; ct != nil {
+			return ct.Params
+		}
+	}
+	out := []string{"recv"}
+	sig := m.Type().(*types.Signature)
+	for i := 0; i < sig.Params().Len(); i++ {
+		n := sig.Params().At(i).Name()
+		if n == "" {
+			n = fmt.Sprintf("a%d", i)
+		}
+		out = append(out, n)
+	}
+	return out
+}
+
+// callSiteChecks generates the obligations of "callsite" clauses of the function being verified.
+func (e *Env) callSiteChecks(st *State, callee string, names []string, args []Val, c *ssa.CallCommon) {
+	if e.specMode > 0 || e.topFn == nil {
+		return
+	}
+	ct := e.Cx.forFunc(e.topFn)
+	if ct == nil {
+		return
+	}
+	for _, cs := range ct.CallSites {
+		if cs.Callee != callee {
+			continue
+		}
+		vars := map[string]Val{}
+		if e.curFrame != nil {
+			for k, v := range e.localVars(st, e.curFrame) {
+				vars[k] = v
+			}
+		}
+		for k, v := range e.topVars {
+			vars[k] = v
+		}
+		for i, n := range names {
+			if i < len(args) && n != "" && n != "_" {
+				vars["dollar_"+n] = args[i]
+				if _, clash := vars[n]; !clash {
+					vars[n] = args[i]
+				}
+			}
+		}
+		cx := &cenv{e: e, pre: e.oldState, post: st, vars: vars, ct: ct, file: ct.File}
+		saved := e.err
+		g := cx.evalBool(cs.Clause.Expr)
+		if saved == nil && e.err != nil {
+			e.clauseErrs = append(e.clauseErrs, fmt.Sprintf("%s/callsite:%s: %v", e.curName, cs.Clause.Label, e.err))
+			e.err = nil
+			e.callSiteHits[cs.Clause.Label]++
+			continue
+		}
+		pos := token.NoPos
+		if c != nil {
+			pos = c.Pos()
+		}
+		e.callSiteHits[cs.Clause.Label]++
+		e.oblige(st, "callsite", cs.Clause.Label, g, "at call of "+callee+": "+cs.Clause.Text, pos)
+	}
 }
 
 var inlineStack []*ssa.Function
@@ -285,10 +365,19 @@ func (e *Env) havocCall(st *State, name string, args []Val, rt types.Type) []Out
 	for _, a := range args {
 		e.havocReach(st, a, name, 0)
 	}
-	return []Out{{st: st, res: e.resultHavoc(st, rt, lastName(name))}}
+	res := e.resultHavoc(st, rt, lastName(name))
+	e.callSeq++
+	st.calls = append(st.calls, CallRec{Name: name, Args: args, Res: res, Seq: e.callSeq})
+	return []Out{{st: st, res: res}}
 }
 
 func lastName(n string) string {
+	// strip a trailing parameter list "(a, b)"
+	if strings.HasSuffix(n, ")") {
+		if j := strings.LastIndex(n, "("); j > 0 && !strings.HasPrefix(n[j:], "(*") && !strings.Contains(n[j:], "/") {
+			n = n[:j]
+		}
+	}
 	if i := strings.LastIndexAny(n, "./)"); i >= 0 && i+1 < len(n) {
 		return n[i+1:]
 	}
@@ -303,7 +392,7 @@ func (e *Env) havocReach(st *State, a Val, why string, d int) {
 	case kCtx:
 		e.havocWorld(st, a.World, why)
 	case kStore:
-		e.havocComp(st, a.Store.World, a.Store.Comp, why)
+		e.havocStore(st, a.Store, why)
 	case kPtr:
 		if a.Ptr.RO {
 			return
@@ -330,7 +419,7 @@ func pureExternal(name string) bool {
 		"github.com/ethereum/go-ethereum/common.", "(github.com/ethereum/go-ethereum/common.", "github.com/ethereum/go-ethereum/crypto.", "math/bits.", "regexp.", "(*regexp.",
 		"github.com/ethereum/go-ethereum/common/hexutil.", "(github.com/cosmos/cosmos-sdk/types.AccAddress).", "github.com/cosmos/cosmos-sdk/types.AccAddressFromBech32",
 		"(time.Time).", "(time.Duration).", "sort.SearchInts", "github.com/cosmos/cosmos-sdk/types/errors.", "(*github.com/cosmos/cosmos-sdk/types/errors.Error).",
-		"github.com/tendermint/tendermint/crypto/tmhash."} {
+		"github.com/tendermint/tendermint/crypto/tmhash.", "github.com/gogo/protobuf/proto.CompactTextString", "github.com/gogo/protobuf/proto.Equal", "github.com/gogo/protobuf/proto.Size"} {
 		if strings.HasPrefix(name, p) {
 			return true
 		}
@@ -363,15 +452,21 @@ func (e *Env) pureCall(st *State, name string, args []Val, rt types.Type) []Out 
 			return []Out{{st: st, res: Val{K: kUnit}}}
 		}
 		if tup.Len() == 1 {
-			return []Out{{st: st, res: mk(tup.At(0).Type(), 0)}}
+			return e.recorded(st, name, args, mk(tup.At(0).Type(), 0))
 		}
 		r := Val{K: kTuple}
 		for i := 0; i < tup.Len(); i++ {
 			r.Elems = append(r.Elems, mk(tup.At(i).Type(), i))
 		}
-		return []Out{{st: st, res: r}}
+		return e.recorded(st, name, args, r)
 	}
-	return []Out{{st: st, res: mk(rt, 0)}}
+	return e.recorded(st, name, args, mk(rt, 0))
+}
+
+func (e *Env) recorded(st *State, name string, args []Val, res Val) []Out {
+	e.callSeq++
+	st.calls = append(st.calls, CallRec{Name: name, Args: args, Res: res, Seq: e.callSeq})
+	return []Out{{st: st, res: res}}
 }
 
 // ---------------------------------------------------------------------------
@@ -416,7 +511,7 @@ func (e *Env) builtin(st *State, name string, args []Val, rt types.Type, c *ssa.
 }
 
 func (e *Env) symbolicLike(st *State, v Val) Val {
-	if v.K == kArr {
+	if _, isArray := v.Typ.Underlying().(*types.Array); v.K == kArr && isArray {
 		out := v
 		out.Elems = make([]Val, len(v.Elems))
 		for i := range v.Elems {
